@@ -16,11 +16,13 @@ import (
 	"testing/synctest"
 	"time"
 
+	"golang.org/x/net/http2"
 	"google.golang.org/grpc"
 	"google.golang.org/grpc/backoff"
 	"google.golang.org/grpc/connectivity"
 	"google.golang.org/grpc/credentials/insecure"
 	"google.golang.org/grpc/internal/zzverif/vlib"
+	"google.golang.org/grpc/internal/zzverif/vlib/rawh2"
 	"google.golang.org/grpc/test/bufconn"
 )
 
@@ -40,7 +42,9 @@ type scenario struct {
 	m, j      frac
 	// per dial attempt: f fail at once, p fail after a part of the backoff (base/2), l fail after longer than any
 	// backoff (2 x max), t hang until the dial deadline expires, r fail at once and ResetConnectBackoff a quarter
-	// of base later, s succeed
+	// of base later, s succeed; c the connection is established (the raw server answers the client preface with its
+	// SETTINGS) and the peer closes at once, C the same but the peer closes one virtual millisecond later (the two
+	// orders "closed before / after the transport is installed")
 	script string
 }
 
@@ -58,6 +62,37 @@ func runScenario(t *testing.T, tr *vlib.Trace, sc scenario) {
 		lis := bufconn.Listen(1 << 16)
 		srv := grpc.NewServer()
 		go srv.Serve(lis)
+		// raw server side for the outcomes c / C: server preface (SETTINGS), then close
+		rawLis := bufconn.Listen(1 << 16)
+		delays := make(chan time.Duration, 64)
+		go rawh2.Serve(rawLis, func(c net.Conn) {
+			defer c.Close()
+			d := <-delays
+			p, err := rawh2.NewServerPeer(c)
+			if err != nil {
+				return
+			}
+			// The client writes its preface and then, in a second write, SETTINGS (+ WINDOW_UPDATE): wait for its
+			// SETTINGS before answering, so that closing cannot make that write fail (the attempt would then be a
+			// FAILED one for the client although the server had answered).
+			for {
+				f, err := p.ReadFrame()
+				if err != nil {
+					return
+				}
+				if sf, ok := f.(*http2.SettingsFrame); ok && !sf.IsAck() {
+					break
+				}
+			}
+			if p.WriteSettings() != nil {
+				return
+			}
+			// the connection is established as soon as the client has the server's SETTINGS
+			tr.Emit(map[string]any{"ev": "estab", "delay": int64(d)})
+			if d > 0 {
+				time.Sleep(d)
+			}
+		})
 		var (
 			mu    sync.Mutex
 			step  int
@@ -89,6 +124,13 @@ func runScenario(t *testing.T, tr *vlib.Trace, sc scenario) {
 					mu.Unlock()
 				}
 				return c, err
+			case 'c', 'C':
+				d := time.Duration(0)
+				if sc.script[k] == 'C' {
+					d = time.Millisecond
+				}
+				delays <- d
+				return rawLis.DialContext(ctx)
 			case 'r':
 				go func() {
 					time.Sleep(sc.base / 4)
@@ -114,6 +156,7 @@ func runScenario(t *testing.T, tr *vlib.Trace, sc scenario) {
 		var err error
 		cc, err = grpc.NewClient("passthrough:///x", grpc.WithTransportCredentials(insecure.NewCredentials()),
 			grpc.WithContextDialer(dialer),
+			grpc.WithIdleTimeout(0), // no idle mode: the subchannel (and its backoff index) lives for the whole script
 			grpc.WithConnectParams(grpc.ConnectParams{
 				Backoff:           backoff.Config{BaseDelay: sc.base, Multiplier: float64(sc.m.p) / float64(sc.m.q), Jitter: float64(sc.j.p) / float64(sc.j.q), MaxDelay: sc.max},
 				MinConnectTimeout: 3 * sc.max, // the dial deadline never cuts a scripted slow dial short
@@ -146,6 +189,10 @@ func runScenario(t *testing.T, tr *vlib.Trace, sc scenario) {
 					cc.Connect()
 					continue
 				}
+				if st == connectivity.Idle {
+					// a connection that was closed by the peer leaves the channel idle: ask for a new attempt
+					cc.Connect()
+				}
 				if !cc.WaitForStateChange(context.Background(), st) {
 					return
 				}
@@ -158,6 +205,7 @@ func runScenario(t *testing.T, tr *vlib.Trace, sc scenario) {
 		cc.Close()
 		srv.Stop()
 		lis.Close()
+		rawLis.Close()
 		synctest.Wait()
 	})
 }
@@ -177,6 +225,10 @@ func TestVerifC20Pace(t *testing.T) {
 		{sec, 8 * sec, frac{2, 1}, frac{0, 1}, "fplfplsplf"},
 		{sec, 4 * sec, frac{2, 1}, frac{1, 4}, "ltfpsltrpf"},
 		{2 * sec, 6 * sec, frac{3, 2}, frac{1, 2}, "pplltfsrlp"},
+		{sec, 16 * sec, frac{2, 1}, frac{0, 1}, "fffcfffCff"},
+		{sec, 16 * sec, frac{2, 1}, frac{1, 4}, "ffcfcffcfffcf"},
+		{sec, 16 * sec, frac{2, 1}, frac{1, 5}, "fpfcffCfplcf"},
+		{sec / 2, 8 * sec, frac{2, 1}, frac{0, 1}, "ffcffcffcffcffcf"},
 		{sec, 8 * sec, frac{2, 1}, frac{0, 1}, "fffffsffsf"},
 		{sec, 8 * sec, frac{2, 1}, frac{1, 4}, "ffrfffsfrff"},
 		{2 * sec, 5 * sec, frac{3, 2}, frac{1, 2}, "fffffrsfff"},
@@ -190,7 +242,7 @@ func TestVerifC20Pace(t *testing.T) {
 	for i := 0; i < n; i++ {
 		b := make([]byte, 6+r.Intn(8))
 		for k := range b {
-			b[k] = "fffpplltsr"[r.Intn(10)]
+			b[k] = "fffpplltsrcC"[r.Intn(12)]
 		}
 		runScenario(t, tr, scenario{time.Duration(1+r.Intn(4)) * sec / 2, time.Duration(4+r.Intn(20)) * sec, ms[r.Intn(len(ms))], js[r.Intn(len(js))], string(b)})
 	}
